@@ -3,8 +3,14 @@ import TinyVerif.Proofs.DlIndFree2
 /-!
 # The functions that change the segment list / talk to the OS (tag `sg_`)
 
-`sys_alloc_Spec` (the mmap contract `OsOk` includes page alignment: `segsOk` of a new segment needs it),
-`release_unused_segments_Spec`, `sys_trim_Spec` of `DlIndSpec.lean`.
+`sg_sys_alloc_spec : sys_alloc_Spec` (the mmap contract `OsOk` includes page alignment: `segsOk` of a new
+segment needs it), `sg_release_unused_segments_spec`, `sg_sys_trim_spec` of `DlIndSpec.lean`.
+
+Branches: `sg_place_init` (`sys-init`), `sg_extend` (`sys-extend`), `sg_add_segment` (`sys-addseg`, both
+`addseg-oldtop-binned` and `-consumed`), `sg_prepend_spec` (`sys-prepend`: the extended segment with a fictitious
+in-use remainder `Q` — `sg_prepend_mid` — followed by freeing `Q`, which is `fr_core` of `DlIndFree2.lean`; `SgAbs`
+relates the real heap to the one containing `Q`), `sg_top_split` (common tail), `sg_trim_top`, `sg_releaseLoop`.
+Non-vacuity examples for every branch and the kernel-checked reason for `TailOk` (`sg_tailOk_needed`) at the end.
 -/
 namespace TinyVerif.Dl
 
@@ -1591,5 +1597,464 @@ theorem sg_abs_unlink {Q : Ent} {h hI h' : Heap} (a : SgAbs Q h hI) {x : Ent} (h
       rw [a1]
       rfl
     · msimp at e3
+
+theorem sg_abs_ssf {Q : Ent} {h hI : Heap} (a : SgAbs Q h hI) (hpf : Q.pfoot = 0) {n : Nat}
+    (hn : Q.size ≤ n) (hn8 : n % 8 = 0) :
+    set_size_and_pinuse_of_free_chunk hI Q.addr n = set_size_and_pinuse_of_free_chunk h Q.addr n := by
+  unfold set_size_and_pinuse_of_free_chunk
+  rw [sg_abs_writeHead a hpf hn hn8]
+
+theorem sg_abs_fields {Q : Ent} {h hI : Heap} (a : SgAbs Q h hI) (f : Heap → Heap)
+    (hf : ∀ x, (f x).ents = x.ents) (hc : f hI = { f h with ents := putEnt h.ents Q }) : SgAbs Q (f h) (f hI) := by
+  obtain ⟨a1, a2, a3, a4⟩ := a
+  exact ⟨by rw [hc, hf], by rw [hf]; exact a2, a3, by rw [hf]; exact a4⟩
+
+/-- clearing a PINUSE bit that is already clear changes nothing -/
+theorem sg_clearPin_noop {h : Heap} {x : Ent} (hok : entsOk h.ents = true) (hx : x ∈ h.ents) (hp : x.pin = false) :
+    clearPin h x.addr = .ok h := by
+  obtain ⟨pre, post, hes⟩ := List.append_of_mem hx
+  rw [hes] at hok
+  unfold clearPin
+  rw [hes, modEnt_mid hok]
+  have : ({ x with pin := false } : Ent) = x := by
+    cases x; simp_all
+  rw [this, ← hes]
+  rfl
+
+theorem sg_prepend_spec : sg_prepend_Spec := by
+  intro s hi htn tbase tsize nb hf hnb hsz sq hsq hsqb q0 ev0 fp0 mf0 la0 hla0 s' mem h
+  have w := hi.wfs
+  obtain ⟨_, hpos, hlim, hfr⟩ := hf.fresh
+  have hsg := w.segs
+  unfold segsOk at hsg
+  simp only [Bool.and_eq_true, List.all_eq_true, decide_eq_true_eq, top_foot_size_eq] at hsg
+  have hsqz := hsg.2 sq hsq
+  have hp1 : align_as_chunk tbase = tbase := align_as_chunk_aligned tbase (by have := hf.page; omega) (by omega)
+  have hp2 : align_as_chunk sq.base = sq.base := align_as_chunk_aligned sq.base (by omega) (by omega)
+  unfold prepend_alloc at h
+  dsimp only at h
+  rw [hp1, hp2, MEM_OFFSET_eq, MIN_CHUNK_SIZE_eq] at h
+  have hq : sq.base - tbase - nb = tsize - nb := by omega
+  simp only [hq] at h
+  msimp at h
+  obtain ⟨_, _, hP, eP, eo, heo, _, _, _, heop, _, _, H, ebr, hres⟩ := h
+  simp only [Prod.mk.injEq] at hres
+  obtain ⟨hres1, hres2⟩ := hres
+  subst hres1; subst hres2
+  simp only [Bool.not_eq_false'] at heop
+  have hpos0 := entsOk_pos w.ents
+  have hfresh := sg_fresh_ents w hfr
+  -- the request chunk `P`
+  unfold set_size_and_pinuse_of_inuse_chunk at eP
+  obtain ⟨p1, p2, p3⟩ := sg_writeHead_tab eP (by exact w.ents) (by have := hnb.2.1; omega) (by
+    intro y hy hlt
+    have hy' : y ∈ s.h.ents := hy
+    have := hpos0 y hy'
+    rcases hfresh y hy' with h | h <;> omega)
+  replace p3 : ∀ z, z ∈ hP.ents ↔ z = { addr := tbase, size := nb, cin := true, pin := true, pfoot := pfootAt s.h.ents tbase } ∨
+      (z ∈ s.h.ents ∧ (z.addr < tbase ∨ tbase + nb ≤ z.addr)) := p3
+  have hpfP : pfootAt s.h.ents tbase = 0 := by
+    apply pfootAt_none
+    apply findEnt_none
+    intro y hy hya
+    have := hpos0 y hy
+    rcases hfresh y hy with h | h <;> omega
+  rw [hpfP] at p3
+  have p3' : ∀ z, z ∈ hP.ents ↔ z = { addr := tbase, size := nb, cin := true, pin := true, pfoot := 0 } ∨ z ∈ s.h.ents := by
+    intro z
+    rw [p3 z]
+    constructor
+    · rintro (h | ⟨h, _⟩)
+      · exact Or.inl h
+      · exact Or.inr h
+    · rintro (h | h)
+      · exact Or.inl h
+      · refine Or.inr ⟨h, ?_⟩
+        have := hpos0 z h
+        rcases hfresh z h with h' | h' <;> omega
+  -- the fictitious in-use remainder `Q`
+  have habs : SgAbs { addr := tbase + nb, size := tsize - nb, cin := true, pin := true, pfoot := 0 } hP
+      { hP with ents := putEnt hP.ents { addr := tbase + nb, size := tsize - nb, cin := true, pin := true, pfoot := 0 } } := by
+    refine ⟨rfl, p2, by simp only; omega, ?_⟩
+    intro y hy
+    simp only
+    rcases (p3' y).1 hy with h | h
+    · subst h; left; simp only; omega
+    · have := hpos0 y h
+      rcases hfresh y h with h' | h' <;> omega
+  obtain ⟨i1, i2⟩ := habs.tab
+  obtain ⟨l1, l2, hsplit, hnot⟩ := sg_split_first hsq
+  obtain ⟨iI, iU, eoI, heoI, heoIm, heoIp⟩ := sg_prepend_mid (I := { (St.tag { s with osq := q0, evs := ev0, footprint := fp0, maxfp := mf0, least_addr := la0, segs := replaceSeg s.segs sq { sq with base := tbase, size := sq.size + tsize } } "sys-prepend") with h := { hP with ents := putEnt hP.ents { addr := tbase + nb, size := tsize - nb, cin := true, pin := true, pfoot := 0 } } })
+    hi hsplit hfr hsqb hf.page hpos (by have := hf.gran; omega) hnb.1 hnb.2.1 hsz
+    (P := { addr := tbase, size := nb, cin := true, pin := true, pfoot := 0 })
+    (Q := { addr := tbase + nb, size := tsize - nb, cin := true, pin := true, pfoot := 0 })
+    rfl rfl rfl rfl rfl rfl rfl rfl i1
+    (by intro z; rw [i2 z, p3' z]; constructor
+        · rintro (h | h | h)
+          · exact Or.inr (Or.inl h)
+          · exact Or.inl h
+          · exact Or.inr (Or.inr h)
+        · rintro (h | h | h)
+          · exact Or.inr (Or.inl h)
+          · exact Or.inl h
+          · exact Or.inr (Or.inr h))
+    (by show replaceSeg s.segs sq _ = _; rw [hsplit]; exact sg_replaceSeg_split hnot)
+    (by show hP.sbins = _; rw [p1]; rfl) (by show hP.tbins = _; rw [p1]; rfl) (by show hP.dv = _; rw [p1]; rfl)
+    (by show hP.dvsize = _; rw [p1]; rfl) (by show hP.top = _; rw [p1]; rfl) (by show hP.topsize = _; rw [p1]; rfl)
+    hla0
+  -- the old first header of the segment
+  have heof := getE_ok.1 heo
+  have heoIa : eoI.addr = sq.base := (findEnt_some heoI).2
+  have heq : eo = eoI := by
+    have := entsOk_find eoI ((p3' eoI).2 (Or.inr heoIm)) p2
+    rw [heoIa, heof] at this
+    injection this
+  subst heq
+  have heom : eo ∈ hP.ents := (findEnt_some heof).1
+  have hqs : tbase + nb + (tsize - nb) = sq.base := by omega
+  have hdvq : s.h.dv ≠ tbase + nb := by
+    intro hd
+    obtain ⟨x, hxm, hxa, _⟩ := w.dv_parts (by
+      intro h0
+      have hd' := w.dv
+      unfold dvOk at hd'
+      rw [if_neg (by omega)] at hd'
+      split at hd'
+      · simp only [Bool.and_eq_true, decide_eq_true_eq] at hd'; omega
+      · cases hd')
+    have := hpos0 x hxm
+    rcases hfresh x hxm with h | h <;> omega
+  have hPtop : hP.top = s.h.top := by rw [p1]; rfl
+  have hPdv : hP.dv = s.h.dv := by rw [p1]; rfl
+  have hu := (iU (tbase + nb) (tsize - nb)).2 (Or.inr (Or.inr ⟨rfl, rfl⟩))
+  have hx : findEnt (putEnt hP.ents { addr := tbase + nb, size := tsize - nb, cin := true, pin := true, pfoot := 0 })
+      (tbase + nb) = some { addr := tbase + nb, size := tsize - nb, cin := true, pin := true, pfoot := 0 } :=
+    (sg_find_iff i1).2 ⟨(i2 _).2 (Or.inl rfl), rfl⟩
+  have hwI := iI.wfs
+  -- the forward step of `dispose_chunk` on the fictitious heap
+  have hfwd : fr_Fwd { hP with ents := putEnt hP.ents { addr := tbase + nb, size := tsize - nb, cin := true, pin := true, pfoot := 0 } }
+      (tbase + nb) (tsize - nb) (tbase + nb + (tsize - nb)) eo H := by
+    rw [hqs]
+    have heoE : eo ∈ s.h.ents := heoIm
+    have hshape_free : ∀ e ∈ s.h.ents, isFree e = true → e.size % 16 = 0 :=
+      fun e he hfe => (shapeOk_free w.shape he (isFree_iff.1 hfe).1).2.1
+    split at ebr
+    · -- prepend-top: the old first chunk is `top`
+      rename_i htp
+      msimp at ebr
+      obtain ⟨h3, eW, hH⟩ := ebr
+      subst hH
+      obtain ⟨_, _, _, xt, _, _, _, htes, hxta, hxtf, hxts, _⟩ := w.top_parts (w.topsize_ne hsq)
+      have hxtm : xt ∈ s.h.ents := by rw [htes]; simp
+      have : eo = xt := entsOk_addr_inj w.ents heoE hxtm (by rw [hPtop] at htp; omega)
+      subst this
+      have hts16 := hshape_free eo heoE hxtf
+      have hk := writeHead_keeps eW
+      right; left
+      refine ⟨(isFree_iff.1 hxtf).1, htp, h3, "prepend-top", ?_, ?_⟩
+      · refine (sg_abs_writeHead
+          (Q := { addr := tbase + nb, size := tsize - nb, cin := true, pin := true, pfoot := 0 })
+          (h := { hP with topsize := hP.topsize + (tsize - nb), top := tbase + nb })
+          (n := hP.topsize + (tsize - nb))
+          ⟨rfl, habs.2.1, habs.2.2.1, habs.2.2.2⟩ rfl (by simp only; omega) ?_).trans eW
+        have : hP.topsize = s.h.topsize := by rw [p1]; rfl
+        have := hf.gran; have := hnb.1
+        omega
+      · rw [if_neg]
+        rw [hk.2.2.1]
+        show tbase + nb ≠ hP.dv
+        rw [hPdv]; exact fun h => hdvq h.symm
+    · rename_i hntp
+      split at ebr
+      · -- prepend-dv: the old first chunk is `dv`
+        rename_i hdvp
+        msimp at ebr
+        obtain ⟨h3, eS, hH⟩ := ebr
+        subst hH
+        rw [hPdv] at hdvp
+        rw [hPtop] at hntp
+        have hdv0 : s.h.dv ≠ 0 := by omega
+        have hd := w.dv
+        unfold dvOk at hd
+        rw [if_neg hdv0] at hd
+        have hef : isFree eo = true ∧ eo.size = s.h.dvsize := by
+          split at hd
+          · rename_i e he
+            simp only [Bool.and_eq_true, decide_eq_true_eq] at hd
+            have : eo = e := entsOk_addr_inj w.ents heoE (findEnt_some he).1 (by have := (findEnt_some he).2; omega)
+            subst this
+            exact ⟨hd.1.1, hd.1.2⟩
+          · cases hd
+        have hts16 := hshape_free eo heoE hef.1
+        right; right; left
+        refine ⟨(isFree_iff.1 hef.1).1, by show sq.base ≠ hP.top; rw [hPtop]; exact hntp,
+          by show sq.base = hP.dv; rw [hPdv]; exact hdvp, h3, "prepend-dv", ?_, rfl⟩
+        refine (sg_abs_ssf
+          (Q := { addr := tbase + nb, size := tsize - nb, cin := true, pin := true, pfoot := 0 })
+          (h := { hP with dvsize := hP.dvsize + (tsize - nb), dv := tbase + nb })
+          (n := hP.dvsize + (tsize - nb))
+          ⟨rfl, habs.2.1, habs.2.2.1, habs.2.2.2⟩ rfl (by simp only; omega) ?_).trans eS
+        have : hP.dvsize = s.h.dvsize := by rw [p1]; rfl
+        have := hf.gran; have := hnb.1
+        omega
+      · rename_i hndvp
+        split at ebr
+        · -- prepend-free: the old first chunk is a binned free chunk
+          rename_i hninuse
+          have hef := sg_not_inuse hninuse
+          msimp at ebr
+          obtain ⟨hU, eU, hS, eSF, eIns⟩ := ebr
+          have hts16 := hshape_free eo heoE hef
+          rw [← heoIa] at eU
+          obtain ⟨hI2, eU2, hab2⟩ := sg_abs_unlink habs heom eU
+          have hUf := unlink_chunk_frame eU
+          -- the header after the free chunk already has PINUSE clear
+          rw [hPtop] at hntp
+          rw [hPdv] at hndvp
+          obtain ⟨pre0, y, post0, _, hes0, _, _, _, hya, _, hyp, _⟩ := w.free_parts heoE hef (by omega)
+          have hym : y ∈ hP.ents := (p3' y).2 (Or.inr (by rw [hes0]; simp))
+          unfold set_free_with_pinuse at eSF
+          msimp at eSF
+          obtain ⟨hC, eC, eSS⟩ := eSF
+          have hCU : hC = hU := by
+            have := sg_clearPin_noop (h := hU) (x := y) (by rw [hUf.ents]; exact p2) (by rw [hUf.ents]; exact hym) hyp
+            rw [hya, heoIa, eC] at this
+            injection this
+          subst hCU
+          rw [heoIa] at eU2
+          have hk1 : hS.dv = hC.dv := by
+            unfold set_size_and_pinuse_of_free_chunk at eSS
+            msimp at eSS
+            obtain ⟨hw, ew, ef⟩ := eSS
+            have k1 := writeHead_keeps ew
+            unfold setFoot at ef
+            split at ef
+            · msimp at ef; subst ef; exact k1.2.2.1
+            · msimp at ef
+          right; right; right
+          refine ⟨(isFree_iff.1 hef).1, by show sq.base ≠ hP.top; rw [hPtop]; exact hntp,
+            by show sq.base ≠ hP.dv; rw [hPdv]; exact hndvp, hI2, hS, eU2, ?_, Or.inr ⟨?_, "prepend-free", eIns⟩⟩
+          · refine (sg_abs_ssf (Q := { addr := tbase + nb, size := tsize - nb, cin := true, pin := true, pfoot := 0 })
+              (n := tsize - nb + eo.size) hab2 rfl (by simp only; omega) ?_).trans eSS
+            have := hf.gran; have := hnb.1
+            omega
+          · rw [hk1, hUf.dv, hPdv]; exact fun h => hdvq h.symm
+        · -- prepend-inuse: the old first chunk is in use
+          rename_i hinuse
+          have hec : eo.cin = true := by
+            unfold Ent.inuse at hinuse
+            rw [heop] at hinuse
+            cases hc : eo.cin with
+            | true => rfl
+            | false => rw [hc] at hinuse; simp at hinuse
+          msimp at ebr
+          obtain ⟨hS, eSF, eIns⟩ := ebr
+          unfold set_free_with_pinuse at eSF
+          msimp at eSF
+          obtain ⟨hC, eC, eSS⟩ := eSF
+          obtain ⟨hIC, eIC, habC⟩ := sg_abs_clearPin habs heom heoIa eC
+          left
+          refine ⟨hec, hS, "prepend-inuse", ?_, eIns⟩
+          unfold set_free_with_pinuse
+          rw [eIC]
+          show set_size_and_pinuse_of_free_chunk hIC (tbase + nb) (tsize - nb) = _
+          refine (sg_abs_ssf (Q := { addr := tbase + nb, size := tsize - nb, cin := true, pin := true, pfoot := 0 })
+            (n := tsize - nb) habC rfl (by simp only; omega) ?_).trans eSS
+          have := hf.gran; have := hnb.1
+          omega
+  have hcore := fr_core iI hu hx (by rw [hqs]; exact heoI) (Or.inl ⟨rfl, rfl, rfl, rfl, rfl⟩) (Or.inr ⟨rfl, hfwd⟩)
+  obtain ⟨iF, hFr⟩ := gl_sinv_freeAtTab iI hcore.1 hu hcore.2
+  refine ⟨iF, by omega, ?_⟩
+  have hnoP : ∀ z ∈ s.h.ents, z.addr ≠ tbase ∧ z.addr ≠ tbase + nb := by
+    intro z hz
+    have := hpos0 z hz
+    rcases hfresh z hz with h | h <;> omega
+  refine ⟨by omega, by have := hf.page; omega, ?_, nb, Nat.le_refl _, ?_⟩
+  · rintro z ⟨e, he, _⟩
+    rw [show tbase + 16 - 16 = tbase by omega] at he
+    exact (hnoP e (findEnt_some he).1).1 (findEnt_some he).2
+  · intro a z
+    rw [show tbase + 16 - 16 = tbase by omega]
+    have h1 := hFr a z
+    rw [show tbase + nb + 16 - 16 = tbase + nb by omega] at h1
+    rw [h1, iU a z]
+    constructor
+    · rintro ⟨h | h | h, hne⟩
+      · exact Or.inl h
+      · exact Or.inr h
+      · exact absurd h.1 hne
+    · rintro (h | h)
+      · refine ⟨Or.inl h, ?_⟩
+        obtain ⟨e, he, _⟩ := h
+        intro ha
+        exact (hnoP e (findEnt_some he).1).2 (by rw [(findEnt_some he).2]; exact ha)
+      · exact ⟨Or.inr (Or.inl h), by have := h.1; have := hnb.2.1; omega⟩
+
+/-- **`sys_alloc`** keeps the invariant; it hands out one new user chunk, or nothing -/
+theorem sg_sys_alloc_spec : sys_alloc_Spec := sg_sys_alloc_of_prepend sg_prepend_spec
+
+/-! ## non-vacuity: every branch of `sys_alloc`, `sys_trim`, `release_unused_segments` on reachable states -/
+
+/-- the state reached by `ops`, ready for an OS-level call with the answers `os` -/
+def sgStart (ops : List (Op × List OsDir)) (os : List OsDir) : St :=
+  { (fr_state ops).st with osq := os, evs := [], h := { (fr_state ops).st.h with tr := [] } }
+
+theorem sg_start_sinv {ops : List (Op × List OsDir)} (h : fr_invB (fr_state ops) = true) (os : List OsDir) :
+    SInv (sgStart ops os) :=
+  sg_sinv_same (fr_inv_of_check h).1 ⟨rfl, rfl, rfl, rfl, rfl, rfl, rfl⟩ rfl rfl (fun _ => rfl)
+
+def sgOsOkB (s : St) (tb len : Nat) : Bool :=
+  decide (tb % 16 = 0) && decide (0 < tb) && decide (tb + len ≤ 2 ^ 64) &&
+    (s.segs.all fun g => decide (tb + len ≤ g.base) || decide (g.base + g.size ≤ tb)) && decide (tb % 4096 = 0)
+
+theorem sg_osOk_of_check {s : St} {tb len : Nat} (hq : s.osq = [.m (some tb)]) (h : sgOsOkB s tb len = true) :
+    OsOk s len := by
+  intro tbase q hq'
+  rw [hq] at hq'
+  injection hq' with h1 _
+  injection h1 with h1
+  injection h1 with h1
+  subst h1
+  unfold sgOsOkB at h
+  simp only [Bool.and_eq_true, decide_eq_true_eq, List.all_eq_true, Bool.or_eq_true] at h
+  exact ⟨⟨h.1.1.1.1, h.1.1.1.2, h.1.1.2, h.1.2⟩, h.2⟩
+
+/-- on the state reached by `ops` the hypotheses of `sys_alloc_Spec` hold for the mapping `tb` and the padded
+request `nb`, and `sys_alloc` serves the request through the branches tagged `tags` -/
+def sgCaseAlloc (ops : List (Op × List OsDir)) (tb nb : Nat) (tags : List String) : Bool :=
+  fr_invB (fr_state ops) && decide (nb % 16 = 0) && decide (32 ≤ nb) && decide (nb < 2 ^ 63) &&
+  sgOsOkB (sgStart ops [.m (some tb)]) tb (sysLen nb) &&
+  match sys_alloc (sgStart ops [.m (some tb)]) nb with
+  | .ok (s', mem) => decide (mem ≠ 0) && tags.all fun t => s'.h.tr.contains t
+  | .error _ => false
+
+theorem sgCaseAlloc_sound {ops : List (Op × List OsDir)} {tb nb : Nat} {tags : List String}
+    (h : sgCaseAlloc ops tb nb tags = true) :
+    ∃ s s' mem, SInv s ∧ NbOk nb ∧ OsOk s (sysLen nb) ∧ sys_alloc s nb = .ok (s', mem) ∧ mem ≠ 0 ∧
+      ∀ t ∈ tags, t ∈ s'.h.tr := by
+  unfold sgCaseAlloc at h
+  simp only [Bool.and_eq_true, decide_eq_true_eq] at h
+  obtain ⟨⟨⟨⟨⟨h1, h2⟩, h3⟩, h4⟩, h5⟩, h6⟩ := h
+  split at h6
+  · rename_i s' mem heq
+    simp only [Bool.and_eq_true, decide_eq_true_eq, List.all_eq_true, List.contains_iff_mem] at h6
+    exact ⟨_, s', mem, sg_start_sinv h1 _, ⟨h2, h3, h4⟩, sg_osOk_of_check rfl h5, heq, h6.1, h6.2⟩
+  · cases h6
+
+def sgCaseTrim (ops : List (Op × List OsDir)) (os : List OsDir) (tag : String) : Bool :=
+  fr_invB (fr_state ops) &&
+  match sys_trim (sgStart ops os) 0 with
+  | .ok (s', _) => s'.h.tr.contains tag
+  | .error _ => false
+
+theorem sgCaseTrim_sound {ops : List (Op × List OsDir)} {os : List OsDir} {tag : String}
+    (h : sgCaseTrim ops os tag = true) :
+    ∃ s s' b, SInv s ∧ sys_trim s 0 = .ok (s', b) ∧ tag ∈ s'.h.tr := by
+  unfold sgCaseTrim at h
+  simp only [Bool.and_eq_true] at h
+  obtain ⟨h1, h2⟩ := h
+  split at h2
+  · rename_i s' b heq
+    exact ⟨_, s', b, sg_start_sinv h1 _, heq, List.contains_iff_mem.1 h2⟩
+  · cases h2
+
+def sgCaseRel (ops : List (Op × List OsDir)) (os : List OsDir) (tag : String) (nsegs : Nat) : Bool :=
+  fr_invB (fr_state ops) &&
+  match release_unused_segments (sgStart ops os) with
+  | .ok (s', _) => s'.h.tr.contains tag && decide (s'.segs.length = nsegs)
+  | .error _ => false
+
+theorem sgCaseRel_sound {ops : List (Op × List OsDir)} {os : List OsDir} {tag : String} {n : Nat}
+    (h : sgCaseRel ops os tag n = true) :
+    ∃ s s' r, SInv s ∧ release_unused_segments s = .ok (s', r) ∧ tag ∈ s'.h.tr ∧ s'.segs.length = n := by
+  unfold sgCaseRel at h
+  simp only [Bool.and_eq_true] at h
+  obtain ⟨h1, h2⟩ := h
+  split at h2
+  · rename_i s' r heq
+    simp only [Bool.and_eq_true, decide_eq_true_eq] at h2
+    exact ⟨_, s', r, sg_start_sinv h1 _, heq, List.contains_iff_mem.1 h2.1, h2.2⟩
+  · cases h2
+
+/-- blocks 1, 5 freed into a `dv` that starts the segment -/
+def sgOpsDv : List (Op × List OsDir) :=
+  [(.malloc 1 100 8, [.m (some 2097152)]), (.malloc 2 100 8, []), (.malloc 3 100 8, []), (.free 2, []),
+   (.malloc 5 8 8, []), (.free 5, []), (.free 1, [])]
+
+/-- two segments; the old one holds only a free chunk, its record chunk and fenceposts -/
+def sgOpsTwo : List (Op × List OsDir) :=
+  [(.malloc 1 100 8, [.m (some 1048576)]), (.malloc 2 100000 8, [.m (some 4194304)]), (.free 1, [])]
+
+set_option maxRecDepth 100000 in
+/-- the hypotheses of `sg_sys_alloc_spec` are satisfiable on every branch of `sys_alloc_place` -/
+example :
+    sgCaseAlloc [] 1048576 112 ["sys-init"] = true ∧
+    sgCaseAlloc [(.malloc 1 100 8, [.m (some 1048576)])] 1114112 70000 ["sys-extend"] = true ∧
+    sgCaseAlloc [(.malloc 1 100 8, [.m (some 1048576)])] 4194304 112 ["sys-addseg", "addseg-oldtop-binned"] = true ∧
+    sgCaseAlloc [(.malloc 1 65432 8, [.m (some 1048576)])] 4194304 112 ["sys-addseg", "addseg-oldtop-consumed"] = true ∧
+    sgCaseAlloc [(.malloc 1 100 8, [.m (some 2097152)])] 2031616 112 ["sys-prepend", "prepend-inuse"] = true ∧
+    sgCaseAlloc [(.malloc 1 100 8, [.m (some 2097152)]), (.malloc 2 100 8, []), (.free 1, [])] 2031616 112
+      ["sys-prepend", "prepend-free"] = true ∧
+    sgCaseAlloc sgOpsDv 2031616 112 ["sys-prepend", "prepend-dv"] = true ∧
+    sgCaseAlloc [(.malloc 1 100 8, [.m (some 2097152)]), (.free 1, [])] 2031616 112 ["sys-prepend", "prepend-top"] = true :=
+  ⟨by decide, by decide, by decide, by decide, by decide, by decide, by decide, by decide⟩
+
+set_option maxRecDepth 100000 in
+/-- … of `sg_sys_trim_spec` (the head segment shrinks) and `sg_release_unused_segments_spec` (a segment is
+unmapped; the OS refuses and the chunk goes back into its tree bin) -/
+example :
+    sgCaseTrim [(.malloc 1 100000 8, [.m (some 1048576)]), (.free 1, [])] [.r true] "trimmed" = true ∧
+    sgCaseRel sgOpsTwo [.u true] "segment-released" 1 = true ∧
+    sgCaseRel sgOpsTwo [.u false] "segment-unmap-refused" 2 = true :=
+  ⟨by decide, by decide, by decide⟩
+
+/-! ## why `TailOk` had to be added: a kernel-checked counterexample
+
+A state satisfying `WF`, `RecsOk`, `FenceOk`, `HeadOk`, `RecIn` (everything of `SInv` but `TailOk`) in which a
+live 32-byte chunk hides in the last 80 bytes of a non-head segment, behind the segment's only other chunk,
+a free one (`dv`).  `free` of the block next to `top` triggers `sys_trim`, whose `release_unused_segments`
+looks at the first chunk only, unmaps the segment — and the live chunk with it: `liveOk` fails. -/
+
+def sgCexSt : St :=
+  { h := {
+      ents := [
+        { addr := 1048576, size := 65472, cin := false, pin := true, pfoot := 0 },
+        { addr := 1114048, size := 32, cin := true, pin := false, pfoot := 65472 },
+        { addr := 1114080, size := 16, cin := true, pin := true, pfoot := 0 },
+        { addr := 1114096, size := 8, cin := true, pin := true, pfoot := 0 },
+        { addr := 4194304, size := 112, cin := true, pin := true, pfoot := 0 },
+        { addr := 4194416, size := 65344, cin := false, pin := true, pfoot := 0 },
+        { addr := 4259760, size := 80, cin := false, pin := false, pfoot := 0 }],
+      sbins := emptyBins, tbins := emptyTrees, dv := 1048576, dvsize := 65472,
+      top := 4194416, topsize := 65344, tr := [] },
+    segs := [{ base := 4194304, size := 65536, recAt := 0 }, { base := 1048576, size := 65536, recAt := 1114096 }],
+    footprint := 131072, maxfp := 131072, trim_check := 0, release_checks := 4095, least_addr := 1048576,
+    osq := [], evs := [] }
+
+def sgCex : Hist :=
+  { st := sgCexSt,
+    live := [{ id := 1, ptr := 1114064, size := 16, align := 8 }, { id := 2, ptr := 4194320, size := 100, align := 8 }] }
+
+theorem sg_ok_of_matchB {α : Type} {x : M α} {p : α → Bool}
+    (h : (match x with | .ok v => p v | .error _ => false) = true) : ∃ v, x = .ok v ∧ p v = true := by
+  cases x with
+  | ok v => exact ⟨v, rfl, h⟩
+  | error e => cases h
+
+set_option maxRecDepth 40000 in
+theorem sg_tailOk_needed :
+    WF sgCex ∧ RecsOk sgCex.st ∧ FenceOk sgCex.st ∧ HeadOk sgCex.st ∧ RecIn sgCex.st ∧ ¬ TailOk sgCex.st ∧
+    ∃ hs' out, sgCex.step (.free 2) [.r true, .u true] = .ok (hs', out) ∧ ¬ WF hs' := by
+  refine ⟨by unfold WF; decide, gl_recsOk_of_check (by decide), gl_fenceOk_of_check (by decide),
+    gl_headOk_of_check (by decide), gl_recIn_of_check (by decide), ?_, ?_⟩
+  · intro h
+    have := h { base := 1048576, size := 65536, recAt := 1114096 } (by decide) (by decide)
+      { addr := 1114048, size := 32, cin := true, pin := false, pfoot := 65472 } (by decide) (by decide)
+    revert this
+    decide
+  · obtain ⟨v, hv, hp⟩ := sg_ok_of_matchB (x := sgCex.step (.free 2) [.r true, .u true])
+      (p := fun v => !wfb v.1) (by decide)
+    simp only [Bool.not_eq_true'] at hp
+    exact ⟨v.1, v.2, hv, by unfold WF; rw [hp]; decide⟩
 
 end TinyVerif.Dl
